@@ -35,6 +35,7 @@ def reset():
     _NARROW.clear()
     _LZ.clear()
     _SLC.clear()
+    _GF2.clear()
 
 
 def nnodes():
@@ -516,7 +517,19 @@ def ite(c, a, b):
         return a if c.a else b
     if a.w == 1 and isc(a) and isc(b):
         return c if a.a == 1 else bnot(c)
+    d = bitop('xor', a, b)
+    if isc(d):
+        # the arms differ by a constant K: ite(c, b^K, b) = b ^ (K masked by c)  -- pure wiring, no mux
+        return bitop('xor', b, mask_by_bit(c, d.a, a.w))
     return _mk('ite', a.w, (c.id, a.id, b.id))
+
+
+def mask_by_bit(c, K, w):
+    "w-bit value whose bit j is c (a 1-bit node) where K has a 1 and 0 elsewhere"
+    sl = []
+    for j in range(w):
+        sl.append((c.id, 0, 1) if (K >> j) & 1 else ('c', 0, 1))
+    return cat_segs(sl)
 
 
 def mul(a, b):
@@ -581,6 +594,59 @@ def band(a, b):
 
 def bor(a, b):
     return bitop('or', a, b)
+
+
+# ---- GF(2) bit-level normal form ---------------------------------------------------------------------
+_GF2 = {}
+
+
+def gf2_bits(n):
+    """per bit of n: (frozenset of atoms, constant bit); atoms are (node id, bit) of sub-terms that are not GF(2)-linear
+    wiring (variables, sums, ands, UFs ...).  xor / concatenation / slicing / constant masks are linear and dissolve."""
+    r = _GF2.get(n.id)
+    if r is not None:
+        return r
+    k = n.k
+    if k == 'const':
+        r = tuple((frozenset(), (n.a >> j) & 1) for j in range(n.w))
+    elif k == 'cat':
+        out = []
+        for sg in n.a:
+            if sg[0] == 'c':
+                out.extend((frozenset(), (sg[1] >> j) & 1) for j in range(sg[2]))
+            else:
+                out.extend(gf2_bits(node(sg[0]))[sg[1]:sg[1] + sg[2]])
+        r = tuple(out)
+    elif k == 'xor':
+        acc = [[set(), (n.a[1] >> j) & 1] for j in range(n.w)]
+        for i in n.a[0]:
+            for j, (st, cb) in enumerate(gf2_bits(node(i))):
+                acc[j][0] ^= st
+                acc[j][1] ^= cb
+        r = tuple((frozenset(st), cb) for st, cb in acc)
+    else:
+        r = tuple((frozenset([(n.id, j)]), 0) for j in range(n.w))
+    _GF2[n.id] = r
+    return r
+
+
+def gf2_canon(n):
+    "rebuild n from its GF(2) normal form (deterministic: equal linear functions give the identical node)"
+    bits = gf2_bits(n)
+    if all(len(st) == 1 and cb == 0 and next(iter(st)) == (n.id, j) for j, (st, cb) in enumerate(bits)):
+        return n
+    sl = []
+    for st, cb in bits:
+        if not st:
+            sl.append(('c', cb, 1))
+            continue
+        atoms = sorted(st)
+        if len(atoms) == 1 and cb == 0:
+            sl.append((atoms[0][0], atoms[0][1], 1))
+            continue
+        b = _nary('xor', 1, [slc(node(i), j, 1) for i, j in atoms] + [const(1, cb)])
+        sl.extend(segs(b))
+    return cat_segs(sl)
 
 
 # ---- traversal --------------------------------------------------------------------------------------
